@@ -328,6 +328,10 @@ def compare(prog, inp, ir_res, hl_res):
         if kind == "outoffuel":
             return "fuel", ""
         if kind == "fail" and msg.startswith("UB:"):
+            if "index out of bounds" in msg and not OPTION_SETS.get(prog.optname, {}).get("restrict_indexing", True):
+                # RestrictIndexing switched off: an out-of-range index of the WGSL program (which the IR reference does not
+                # notice when the element is never loaded) is intentionally left unprotected by this option set
+                return "ir_undefined", "index out of bounds with RestrictIndexing off"
             return "hlsl_ub", msg
         return "out_of_fragment", (kind or "") + ":" + msg[:100]
     T = prog.types
